@@ -22,14 +22,25 @@ type VerifTraffic struct {
 
 // VerifDump returns a snapshot of every Traffic record, sorted by map key.
 func (s *Service) VerifDump() []VerifTraffic {
+	type ent struct {
+		k string
+		t *Traffic
+	}
+	// the locks are taken one after the other, never nested (Pay holds a record lock
+	// while AvailableBalance takes trafficLock)
 	s.trafficPeers.trafficLock.Lock()
-	defer s.trafficPeers.trafficLock.Unlock()
-	out := make([]VerifTraffic, 0, len(s.trafficPeers.trafficPeers))
+	ents := make([]ent, 0, len(s.trafficPeers.trafficPeers))
 	for k, t := range s.trafficPeers.trafficPeers {
+		ents = append(ents, ent{k, t})
+	}
+	s.trafficPeers.trafficLock.Unlock()
+	out := make([]VerifTraffic, 0, len(ents))
+	for _, e := range ents {
+		t := e.t
 		t.Lock()
 		ptrs := [7]*big.Int{t.trafficPeerBalance, t.retrieveChainTraffic, t.transferChainTraffic,
 			t.retrieveChequeTraffic, t.transferChequeTraffic, t.retrieveTraffic, t.transferTraffic}
-		v := VerifTraffic{Key: k, Ptrs: ptrs, Status: t.status}
+		v := VerifTraffic{Key: e.k, Ptrs: ptrs, Status: t.status}
 		for i, p := range ptrs {
 			if p != nil {
 				v.Vals[i] = new(big.Int).Set(p)
